@@ -99,6 +99,14 @@ func corpus() []*prog {
 		{Name: "F", Embeds: emb(p, "X")}, {Name: "G", Embeds: emb(p, "A", "F")},
 		{Name: "Z", Methods: []gmeth{fooOf("string")}}, {Name: "Y", Embeds: emb(p, "Z")}, {Name: "H", Embeds: emb(p, "Y")},
 		{Name: "Original", Embeds: emb(p, "G", "H"), Methods: []gmeth{m("Own", nil, nil)}}}
+	// c13-c15: exactly one embedded field plus plain fields named like methods of the embedded type
+	// (and of the type one level further down): a field hides the promoted method
+	p = newp("c13")
+	p.Structs = []gstruct{{Name: "L", Methods: []gmeth{m("Get", nil, nil), m("Deep", nil, nil)}},
+		{Name: "E", Embeds: emb(p, "L"), Methods: []gmeth{m("Foo", nil, nil), m("Bar", nil, nil)}},
+		{Name: "Original", Embeds: emb(p, "E"), Methods: []gmeth{m("Own", nil, nil)},
+			Fields: []gfield{{Name: "Foo", T: fn(nil, false, nil)}, {Name: "Deep", T: basic("int")}}}}
+	out = append(out, fieldShadowProgram(gal.NewRand(14), "c14", "corpus"), fieldShadowProgram(gal.NewRand(15), "c15", "corpus"))
 	// c7, c8: one method per regression-prone shape (see shapeProgram), fixed seeds
 	out = append(out, shapeProgram(gal.NewRand(7), "c7", "corpus"), shapeProgram(gal.NewRand(8), "c8", "corpus"))
 	return out
